@@ -64,6 +64,8 @@ partial def wakeEvents : List String → List Model.ProducerWake.Ev → List Mod
       | _ => wakeEvents rest acc
     | ["Bc", site], _ => wakeEvents rest (.bcast (site.toNat?.getD 0) :: acc)
     | ["X", id], _ => match id.toNat? with | some i => wakeEvents rest (.returned i :: acc) | none => wakeEvents rest acc
+    | ["Fe", _, _], _ => wakeEvents rest (.flushReturned :: acc)
+    | ["Ae", _, _], _ => wakeEvents rest (.flushReturned :: acc)
     | ["Q", _, _, _], _ => wakeEvents rest (.quiesce :: acc)
     | _, _ => wakeEvents rest acc
 
